@@ -11,7 +11,7 @@ from fractions import Fraction
 from engine import term as T, agg, build, vg, poly as P, polycheck as PC
 from engine.agg import ELEM, AGG, MATDIM, cpp, TU
 from engine.report import HOLDS, VIOLATED, UNDECIDED
-from .common import Analysed, fn_where
+from .common import Analysed, fn_where, narrowing
 
 def perm_sign(p):
     s = 1
@@ -301,6 +301,7 @@ def main(rep, ws, tier):
         if len(oids) < 2: continue
         st = HOLDS if all(status.get(o) == HOLDS for o in oids) else (VIOLATED if any(status.get(o) == VIOLATED for o in oids) else UNDECIDED)
         rep.ob('spellings(%s<%s>)' % (fam, ELEM[t][0]), 'R05.spell', st, 'spellings: ' + ', '.join(oids) + ('' if st == HOLDS else ' do not all equal the definition'), nontrivial=False)
+    narrowing(rep, ws, [gen_tu('d')], 'R05.prec')
     rep.floor('product/minor/determinant instances', sum(1 for o in rep.obs if o['rule'] == 'R05.def'), 100 * len(types))
     rep.assumptions += ['exact real arithmetic (D-poly): rounding is not modelled', 'distinct reference parameters do not alias (in-place forms analysed separately)']
     rep.undecided_clauses += ['the numeric value of the rounding bound (only the cancellation-free shape that the standard bound needs is decided)',
